@@ -574,3 +574,72 @@ func nilPredicate(h *ssa.Function) (bool, string) {
 	}
 	return true, ""
 }
+
+// codecMethodSpec: the codec-interface methods the exported, embeddable claim
+// and component types declare themselves ("*" = pointer receiver). Extension
+// profiles and extension component types embed these types; a codec method is
+// promoted into every embedder that does not declare its own, and then the
+// codec hands the whole outer object to the promoted method, which knows only
+// the embedded part. Adding one therefore changes what every such embedder
+// encodes or decodes; removing one changes the type's own encoding.
+var codecMethodSpec = map[string][]string{
+	"P1Claims":    {"*UnmarshalCBOR", "*UnmarshalJSON", "MarshalCBOR", "MarshalJSON"},
+	"P2Claims":    {"*UnmarshalCBOR", "*UnmarshalJSON"},
+	"SwComponent": {},
+}
+
+var codecMethodNames = map[string]bool{
+	"MarshalCBOR": true, "UnmarshalCBOR": true, "MarshalJSON": true, "UnmarshalJSON": true,
+	"MarshalBinary": true, "UnmarshalBinary": true, "MarshalText": true, "UnmarshalText": true,
+}
+
+// ruleCodecMethodSets: the embeddable types declare exactly the codec methods
+// of codecMethodSpec.
+func ruleCodecMethodSets(w *World, r *Recorder, rule string) {
+	var names []string
+	for n := range codecMethodSpec {
+		names = append(names, n)
+	}
+	sort.Strings(names)
+	for _, tn := range names {
+		nt := w.NamedType(w.Root, tn)
+		if nt == nil {
+			r.Undecide(rule, "codec-methods("+tn+")", "-", "type not found")
+			continue
+		}
+		got := map[string]token.Pos{}
+		for i := 0; i < nt.NumMethods(); i++ {
+			m := nt.Method(i)
+			if !codecMethodNames[m.Name()] {
+				continue
+			}
+			key := m.Name()
+			if sig, ok := m.Type().(*types.Signature); ok && sig.Recv() != nil {
+				if _, ptr := sig.Recv().Type().(*types.Pointer); ptr {
+					key = "*" + key
+				}
+			}
+			got[key] = m.Pos()
+		}
+		want := map[string]bool{}
+		for _, m := range codecMethodSpec[tn] {
+			want[m] = true
+		}
+		ok := true
+		for m, pos := range got {
+			if !want[m] {
+				ok = false
+				r.Refute(rule, "codec-methods("+tn+")#"+m, w.Pos(pos), fmt.Sprintf("%s declares the codec method %s: it is promoted into every type that embeds %s (extension profiles, extension components) and takes over their encoding or decoding, which then covers only the embedded part", tn, m, tn))
+			}
+		}
+		for m := range want {
+			if _, has := got[m]; !has {
+				ok = false
+				r.Refute(rule, "codec-methods("+tn+")#"+m, w.Pos(nt.Obj().Pos()), fmt.Sprintf("%s no longer declares the codec method %s", tn, m))
+			}
+		}
+		if ok {
+			r.Prove(rule, "codec-methods("+tn+")", w.Pos(nt.Obj().Pos()), fmt.Sprintf("declares exactly %v", codecMethodSpec[tn]), false)
+		}
+	}
+}
